@@ -35,6 +35,9 @@ def run(ctx):
         mech.memo_check(ctx, "memoisation", crate, crs, tag)
         mech.choke_points(ctx, "choke-points", crate, tag)
         solve_is_exclusive(ctx, crate, tag)
+        # per-solve bookkeeping is consulted, not the persistent cache, when deciding what still has to be encoded
+        import c09
+        ctx.guard("new-solvables" + tag, c09.new_solvables, ctx, crate, crs, tag)
 
 
 def state_reset(ctx, crate, tag):
